@@ -342,4 +342,8 @@ def check(ctx, rep):
     rule_original_node_position(ctx, rep)
     rule_line_args(ctx, rep)
     rule_line_patterns_all(ctx, rep)
+    from .c18 import rule_framework_dispatch_keeps_updates
+
+    rep.rule("R-DISPATCH-KEEPS-UPDATES", "the framework dispatcher hands back the updated node when the line / result filter declines (a declined enclosing node must not revert a permitted nested fix)", 3)
+    rule_framework_dispatch_keeps_updates(ctx, rep, "R-DISPATCH-KEEPS-UPDATES")
     rep.not_covered += ["fnmatch semantics of `path:line` spellings", "multi-line constructs (match_line requires start == end == line)"]
